@@ -203,13 +203,15 @@ theorem little_endian_argument (b : Bits) (h : b.length = 144) :
   rw [encodeEndian_little b h]
   exact decode_encode _ (by rw [rev3_length 48 b (by omega)])
 
-/-! ## non-vacuity: a captured packet of `test_trellis.py`, evaluated by the kernel -/
+/-! ## non-vacuity
 
+The examples are evaluated by the kernel on the tables of this run.  They are phrased so that they
+hold for *any* tables for which the property holds (no captured code word is pinned here: that the
+model reproduces the captured packets of `test_trellis.py` is the job of the correspondence run). -/
+
+/-- decoded octets of a captured packet of `test_trellis.py` -/
 def sampleOctets : Bytes :=
   [0x02, 0xf2, 0x44, 0x00, 0x59, 0x00, 0x20, 0x00, 0x4d, 0x00, 0x41, 0x00, 0x52, 0x00, 0x45, 0x00, 0x4b, 0x00]
-
-def sampleStream : Bits :=
-  natToBits 196 0x24f6d23fe2352212aed27fd268e2f212fae2f07822472f872
 
 /-- `r` succeeded with a value equal to `v` -/
 def okIs {α : Type} [BEq α] (r : R α) (v : α) : Bool :=
@@ -219,20 +221,30 @@ def okIs {α : Type} [BEq α] (r : R α) (v : α) : Bool :=
 
 example : sampleOctets.length = 18 ∧ ∀ x ∈ sampleOctets, x < 256 := by decide +kernel
 example : (bytesToBits sampleOctets).length = 144 := by decide +kernel
-example : okIs (encodeBytes sampleOctets) sampleStream = true := by decide +kernel
-example : okIs (decodeAsBytes sampleStream) sampleOctets = true := by decide +kernel
-
-/-- the hypotheses of `reject_unreachable` are satisfiable: the sample stream with its first dibit
-pair changed so that the first point is 1, which state 0 (row 0, 8, 4, 12, 2, 10, 6, 14) cannot emit -/
-def badStream : Bits := [true, false, true, false] ++ sampleStream.drop 4
-
-example : okIs (streamPoints badStream >>= fun pts => pure pts[0]?) (some 1) = true := by
+example : okIs (encodeBytes sampleOctets >>= decodeAsBytes) sampleOctets = true := by decide +kernel
+example : okIs (encode (bytesToBits sampleOctets) >>= fun s => pure s.length) 196 = true := by
   decide +kernel
-example : (∀ pts, stateBefore pts 0 = .ok 0) ∧ okIs (rowOf 0) [0, 8, 4, 12, 2, 10, 6, 14] = true
-    ∧ (1 : Nat) ∉ [0, 8, 4, 12, 2, 10, 6, 14] :=
-  ⟨fun _ => rfl, by decide +kernel, by decide +kernel⟩
-example : (match decode badStream with | .error .assertion => true | _ => false) = true := by
-  decide +kernel
+
+/-- the hypotheses of `reject_unreachable` are satisfiable: take the smallest point `q` that row 0
+lacks, put it first (where the decoder is in state 0) in front of 48 arbitrary points, and map the 49
+points to a 196-bit stream with the encoder's own stages; the stream has exactly these points, `q` is
+not in the row of `stateBefore … 0 = 0`, and the decoder answers with the assertion error -/
+def rejectWitness : Bool :=
+  match rowOf 0 with
+  | .ok row =>
+    match (List.range 16).find? (fun q => !row.contains q) with
+    | some q =>
+      let pts := q :: List.replicate 48 0
+      match pointsToDibits pts >>= interleave >>= dibitsToBits with
+      | .ok s =>
+        s.length == 196 && okIs (streamPoints s) pts && okIs (stateBefore pts 0) 0
+          && !row.contains q
+          && (match decode s with | .error .assertion => true | _ => false)
+      | .error _ => false
+    | none => false
+  | .error _ => false
+
+example : rejectWitness = true := by decide +kernel
 
 /-- a little-endian bitarray argument really differs: `110…` comes back as `011…` -/
 example : rev3 (bytesToBits sampleOctets) ≠ bytesToBits sampleOctets := by decide +kernel
